@@ -3,9 +3,13 @@
 package verifharness_test
 
 import (
+	"encoding/json"
 	"fmt"
+	"os"
+	"os/exec"
 	"sort"
 	"strings"
+	"sync/atomic"
 	"testing"
 
 	"github.com/jub0bs/cors"
@@ -212,29 +216,24 @@ func neighbours(cfg cors.Config) []cors.Config {
 
 var entries = []string{"new", "reconf-zero", "reconf-configured", "reconf-neighbour", "reconf-configured-debug"}
 
-func c05Run(r *Run, l *Local, c *CfgSpec, entry, note string) {
+// c05Judge runs the entry point on the configuration and compares the outcome with S4. It returns "" or
+// (violation key, monitor, message). Pure with respect to the harness, so that a child process can run it as its very
+// first call into the library.
+func c05Judge(c *CfgSpec, entry string) (key, monitor, msg string) {
 	want := c.violations()
 	cfg := c.Config()
-	l.cur = func() any { return c05Case{c, entry, note} }
 	mw, err := buildVia(entry, cfg)
-	l.Eval()
-	nv := 0
-	for _, n := range want {
-		nv += n
-	}
-	l.counters[fmt.Sprintf("configs_with_%02d_violation_keys", min(len(want), 12))]++
 	if len(want) == 0 {
 		if err != nil {
-			r.Violate("valid-rejected", "S4-completeness", fmt.Sprintf("documented-permitted configuration rejected via %s: %v | %s", entry, err, cfgString(&cfg)), c05Case{c, entry, note})
+			return "valid-rejected", "S4-completeness", fmt.Sprintf("documented-permitted configuration rejected via %s: %v | %s", entry, err, cfgString(&cfg))
 		}
-		return
+		return "", "", ""
 	}
 	if err == nil {
-		r.Violate("invalid-accepted", "S4-soundness", fmt.Sprintf("configuration with violations %v accepted via %s | %s", keysOf(want), entry, cfgString(&cfg)), c05Case{c, entry, note})
-		return
+		return "invalid-accepted", "S4-soundness", fmt.Sprintf("configuration with violations %v accepted via %s | %s", keysOf(want), entry, cfgString(&cfg))
 	}
 	if entry == "new" && mw != nil {
-		r.Violate("non-nil-middleware-with-error", "S4-soundness", fmt.Sprintf("NewMiddleware returned a non-nil *Middleware together with error %v", err), c05Case{c, entry, note})
+		return "non-nil-middleware-with-error", "S4-soundness", fmt.Sprintf("NewMiddleware returned a non-nil *Middleware together with error %v", err)
 	}
 	leaves := leavesOf(err)
 	if p := compareErrors(want, leaves); p != "" {
@@ -245,10 +244,64 @@ func c05Run(r *Run, l *Local, c *CfgSpec, entry, note string) {
 		case strings.Contains(p, "corresponds to no violation"):
 			key = "spurious-error"
 		}
-		r.Violate(key, "S4-error-tree", fmt.Sprintf("%s | via %s | %s | reported: %v", p, entry, cfgString(&cfg), err), c05Case{c, entry, note})
+		return key, "S4-error-tree", fmt.Sprintf("%s | via %s | %s | reported: %v", p, entry, cfgString(&cfg), err)
 	}
-	// the joined error's message mentions every leaf message (errors.Join semantics are relied upon by users who log it)
-	_ = nv
+	return "", "", ""
+}
+
+func c05Run(r *Run, l *Local, c *CfgSpec, entry, note string) {
+	l.cur = func() any { return c05Case{c, entry, note} }
+	l.counters[fmt.Sprintf("configs_with_%02d_violation_keys", min(len(c.violations()), 12))]++
+	key, monitor, msg := c05Judge(c, entry)
+	l.Eval()
+	if key != "" {
+		r.Violate(key, monitor, msg, c05Case{c, entry, note})
+	}
+}
+
+// ---------------------------------------------------------------------------
+// first call in a fresh process (lesson of seeded change C05-n: tables built lazily on first use, one accessor
+// forgetting to build them): the test binary re-executes itself; the child's very first call into the library is the
+// validation of ONE configuration; the verdict travels back on stdout.
+
+const childEnv = "VERIF_CHILD_CASE"
+
+func TestVerif_Child(t *testing.T) {
+	raw := os.Getenv(childEnv)
+	if raw == "" {
+		t.Skip("not a child process")
+	}
+	var cs c05Case
+	if err := json.Unmarshal([]byte(raw), &cs); err != nil {
+		fmt.Printf("CHILD-ERROR %v\n", err)
+		return
+	}
+	key, monitor, msg := c05Judge(cs.Spec, cs.Entry)
+	b, _ := json.Marshal([3]string{key, monitor, msg})
+	fmt.Printf("CHILD-RESULT %s\n", b)
+}
+
+// runInFreshProcess judges one configuration in a child process; ok=false means the child could not be run.
+func runInFreshProcess(cs c05Case) (key, monitor, msg string, ok bool) {
+	b, err := json.Marshal(cs)
+	if err != nil {
+		return "", "", "", false
+	}
+	cmd := exec.Command(os.Args[0], "-test.run", "^TestVerif_Child$", "-test.v")
+	cmd.Env = append(os.Environ(), childEnv+"="+string(b), "VERIF_RESULT=", "VERIF_REPLAY=")
+	out, err := cmd.Output()
+	if err != nil {
+		return "", "", "", false
+	}
+	for _, line := range strings.Split(string(out), "\n") {
+		if rest, found := strings.CutPrefix(line, "CHILD-RESULT "); found {
+			var res [3]string
+			if json.Unmarshal([]byte(rest), &res) == nil {
+				return res[0], res[1], res[2], true
+			}
+		}
+	}
+	return "", "", "", false
 }
 
 func keysOf(m map[ExpErr]int) []string {
@@ -275,6 +328,11 @@ func TestVerif_C05(t *testing.T) {
 	var rc c05Case
 	if r.LoadReplay(nil, &rc) {
 		l := r.newLocal(0)
+		if strings.HasPrefix(rc.Note, "first-call") { // witnessed in a fresh process: replayed in one
+			if key, monitor, msg, ok := runInFreshProcess(rc); ok && key != "" {
+				r.Violate(key, monitor, "as the first library call of a fresh process: "+msg, rc)
+			}
+		}
 		c05Run(r, l, rc.Spec, rc.Entry, rc.Note)
 		r.merge(l)
 		r.Finish(0)
@@ -291,8 +349,8 @@ func TestVerif_C05(t *testing.T) {
 
 	// ---- part 1: exhaustive single-atom sweeps
 	type sw struct {
-		cred        bool
-		pna         int
+		cred       bool
+		pna        int
 		tolI, tolP bool
 	}
 	var switches []sw
@@ -319,6 +377,13 @@ func TestVerif_C05(t *testing.T) {
 		}
 		filler := secureOriginAtoms[7]
 		for ei, entry := range entries {
+			for _, nonNil := range []bool{false, true} { // no origin pattern: nil and empty non-nil lists
+				c := base()
+				c.Origins, c.NonNilEmpty = nil, nonNil
+				c05Run(r, l, c, entry, "no-origin")
+				nontrivial(l, c, entry)
+			}
+			_ = ei
 			for _, a := range allOrigins {
 				c := base()
 				c.Origins = []OAtom{a}
@@ -402,6 +467,9 @@ func TestVerif_C05(t *testing.T) {
 		}
 	})
 	r.Exhaustive("every atom of every table alone, at each position of a 3-element list and duplicated, x Credentialed x 4 PNA settings x 2 tolerate flags (x 3 entry points for singletons); all max-age x status pairs")
+
+	// ---- every atom alone as the FIRST library call of a fresh process
+	freshProcessSweep(r, "C05")
 
 	// ---- part 1b: every byte value inside a method and inside request-/response-header names (token alphabet)
 	r.Parallel(1, func(l *Local) {
@@ -488,4 +556,85 @@ func TestVerif_C05(t *testing.T) {
 		}
 	})
 	r.Finish(2000)
+}
+
+// freshProcessSweep: every labelled atom of every table, alone in its field of an otherwise minimal configuration
+// (plus a few list shapes), validated as the very first library call of a fresh child process, via NewMiddleware and via
+// Reconfigure on a zero value. prop selects the judgement: C05 demands the exact verdict and error tree, C04 only that
+// nothing with a violation is accepted.
+func freshProcessSweep(r *Run, prop string) {
+	if r.Phase == "coverage" || r.Replaying() {
+		return // (coverage is measured on in-process slices; children write no profile)
+	}
+	var cases []c05Case
+	mk := func() *CfgSpec { return &CfgSpec{Origins: []OAtom{secureOriginAtoms[0]}} }
+	add := func(c *CfgSpec, note string) {
+		cases = append(cases, c05Case{c, "new", note}, c05Case{c, "reconf-zero", note})
+	}
+	for _, a := range append(append(append(append([]OAtom{oStarAtom}, secureOriginAtoms...), insecureOriginAtoms...), pslOriginAtoms...), invalidOriginAtoms...) {
+		c := mk()
+		c.Origins = []OAtom{a}
+		add(c, "first-call-origin")
+		if a.Insecure {
+			c2 := mk()
+			c2.Origins, c2.Cred = []OAtom{a}, true
+			add(c2, "first-call-origin-credentialed")
+		}
+	}
+	for _, a := range append(append(append(append([]MAtom{mStarAtom}, validMethodAtoms...), safelistedMethodAtoms...), forbiddenMethodAtoms...), invalidMethodAtoms...) {
+		c := mk()
+		c.Methods = []MAtom{a}
+		add(c, "first-call-method")
+	}
+	for _, a := range append(append(append(append(append([]HAtom{hStarAtom}, validReqHdrAtoms...), authReqHdrAtoms...), forbiddenReqHdrAtoms...), prohibitedReqHdrAtoms...), invalidHdrAtoms...) {
+		c := mk()
+		c.ReqHdrs = []HAtom{a}
+		add(c, "first-call-request-header")
+	}
+	for _, a := range append(append(append(append(append([]HAtom{hStarAtom}, validRespHdrAtoms...), safelistedRespHdrAtoms...), forbiddenRespHdrAtoms...), prohibitedRespHdrAtoms...), invalidHdrAtoms...) {
+		c := mk()
+		c.RespHdrs = []HAtom{a}
+		add(c, "first-call-response-header")
+		c2 := mk()
+		c2.RespHdrs = []HAtom{a, validRespHdrAtoms[0]}
+		add(c2, "first-call-response-header-then-valid")
+	}
+	for _, v := range append(append([]int{}, validMaxAges...), invalidMaxAges...) {
+		c := mk()
+		c.MaxAge = v
+		add(c, "first-call-max-age")
+	}
+	for _, v := range append(append([]int{}, validStatuses...), invalidStatus...) {
+		c := mk()
+		c.Status = v
+		add(c, "first-call-status")
+	}
+	if !r.Thor { // quick: every second case (hashed), thorough: all
+		kept := cases[:0]
+		for i, cs := range cases {
+			if r.visit(i, 2) {
+				kept = append(kept, cs)
+			}
+		}
+		cases = kept
+	}
+	var failedToRun atomic.Int64
+	r.Parallel(len(cases), func(l *Local) {
+		cs := cases[l.Batch]
+		l.cur = func() any { return cs }
+		key, monitor, msg, ok := runInFreshProcess(cs)
+		l.Eval()
+		l.counters["fresh_process_cases"]++
+		if !ok {
+			failedToRun.Add(1)
+			return
+		}
+		if key == "" || prop == "C04" && key != "invalid-accepted" && key != "non-nil-middleware-with-error" {
+			return
+		}
+		r.Violate(key, monitor, "as the first library call of a fresh process: "+msg, cs)
+	})
+	if n := failedToRun.Load(); n > int64(len(cases)/10) {
+		r.Inconclusive(fmt.Sprintf("%d of %d child processes could not be run", n, len(cases)))
+	}
 }
